@@ -372,3 +372,35 @@ def rule_afd1(chk, prog, rule="AFD1"):
 def op_const_s(a):
     k = a.get("k") if isinstance(a, dict) else None
     return (k or {}).get("s", "")
+
+
+def rule_addr_map(chk, prog, rule, role):
+    """Peer and original-destination addresses are normalised v6 -> v4 only by the exact inverse of the kernel's v4-mapped
+    representation (`Ipv6Addr::to_ipv4_mapped`, `to_canonical`).  `Ipv6Addr::to_ipv4` also rewrites the deprecated v4-compatible range
+    ::/96 (::1 -> 0.0.0.1, ::a.b.c.d -> a.b.c.d): the address filters see, or the destination the next hop is asked for, is then not
+    the real one.  `role` names what the caller's property loses ("source address seen by filters", "tproxy destination")."""
+    lossy, exact = [], []
+    for f in prog.fns.values():
+        if f.crate != "redproxy_rs":
+            continue
+        for c in f.calls:
+            p = c.path or ""
+            if re.search(r"net::(ip_addr|ip)::Ipv6Addr::to_ipv4$", p) or re.search(r"Ipv6Addr::to_ipv4$", p):
+                lossy.append(c)
+            elif re.search(r"Ipv6Addr::(to_ipv4_mapped|to_canonical)$", p):
+                exact.append(c)
+    # the mapping helper exists and is what listeners apply to accepted peers (the rule is not vacuous)
+    users = set()
+    for c in exact + lossy:
+        top = prog.top_parent(c.fn)
+        for cc in prog.callers_of(re.escape(top.path) + "$"):
+            if cc.fn.crate == "redproxy_rs" and cc.local_key() == top.key:
+                users.add(cc.fn.file)
+    chk.floor(rule, len(exact) + len(lossy), 1, "v6 -> v4 address normalisation sites")
+    chk.floor(rule, len([u for u in users if u.startswith("src/listeners/")]), 1, "listener files applying the address normalisation")
+    chk.instance(rule, "src/common", "v6 -> v4 normalisation of the %s is the exact inverse of v4-mapping (to_ipv4_mapped), never the lossy to_ipv4" % role,
+                 not lossy, "exact sites %d, lossy sites %d, applied in %s" % (len(exact), len(lossy), sorted(users)))
+    for c in lossy:
+        chk.finding(rule, c.fn.key, "lossy-v4-map", "", c.where(),
+                    "%s converts an IPv6 address with Ipv6Addr::to_ipv4, which also rewrites ::1 to 0.0.0.1 and ::a.b.c.d to a.b.c.d: the %s is no longer "
+                    "the real one for addresses in ::/96 (use to_ipv4_mapped)" % (c.fn.path, role))
